@@ -343,7 +343,12 @@ func (w *World) evalIdent(env *CEnv, name string) *Val {
 			return w.eval(env, l.Expr)
 		}
 	}
-	if c, ok := w.specs.Consts[name]; ok {
+	if env.pkg != nil {
+		if c, ok := w.specs.Consts[env.pkg.Path()+"::"+name]; ok {
+			return w.eval(env, c)
+		}
+	}
+	if c, ok := w.specs.Consts["::"+name]; ok {
 		return w.eval(env, c)
 	}
 	if key, ok := w.ghostKey(name); ok {
@@ -774,7 +779,7 @@ func (w *World) evalCall(env *CEnv, e *CExpr) *Val {
 	case "int2str":
 		return &Val{T: mk(SString, "str.from_int", ev(0).T), Typ: strT}
 	}
-	if m, ok := w.specs.Macros[name]; ok {
+	if m, ok := w.lookupMacro(env, name); ok {
 		if len(m.Params) != len(args) {
 			unsupported("macro %s expects %d arguments", name, len(m.Params))
 		}
@@ -807,6 +812,17 @@ func (w *World) evalCall(env *CEnv, e *CExpr) *Val {
 	}
 	unsupported("unknown function %s in contract", name)
 	return nil
+}
+
+// lookupMacro finds a macro of the contract's own package, then of the models.
+func (w *World) lookupMacro(env *CEnv, name string) (*Macro, bool) {
+	if env.pkg != nil {
+		if m, ok := w.specs.Macros[env.pkg.Path()+"::"+name]; ok {
+			return m, true
+		}
+	}
+	m, ok := w.specs.Macros["::"+name]
+	return m, ok
 }
 
 func (w *World) typeArg(env *CEnv, e *CExpr) types.Type {
